@@ -496,7 +496,9 @@ func checkRead(o *harness.Outcome, step int, cfg *Cfg, s *subject, ref *model.Wi
 			o.Fail("C08.node-maxconc", step, "t=%d node.MaxConcurrency()=%d, reference %d", now, got, want)
 		}
 		for k, ev := range evOf[:4] {
-			want := float64(ref.MaxBucket(k, lo, hi)) * float64(cfg.NodeV.N) / float64(cfg.NodeV.I) * 1000
+			// the busiest bucket's rate per second: its count over the length of the bucket it was counted in - the
+			// array's (the node's view only selects which buckets are looked at)
+			want := float64(ref.MaxBucket(k, lo, hi)) / float64(L) * 1000
 			if got := s.node.GetMaxAvg(ev); !feq(got, want) {
 				o.Fail("C08.node-maxavg", step, "t=%d node.GetMaxAvg(event %d)=%v, reference %v", now, k, got, want)
 			}
